@@ -35,3 +35,11 @@ PROPS["C12"] = dict(
     bounded=[("c12_classifiers", {"quick": 25, "thorough": 240}), ("c12_natural_breaks", {"quick": 25, "thorough": 200, "jit": True}),
              ("c12_natural_breaks_near_duplicates", {"quick": 15, "thorough": 60, "jit": True})],
 )
+
+PROPS["C09"] = dict(
+    level="proof",
+    technique="contract-based deductive verification: ghost-window and partial-sum loop invariants on the real focal / convolution kernels (pyvc VCs -> z3, XR float model; reducers uninterpreted)",
+    not_decided=[],
+    assumptions=["np.nanmean/nansum/nanmin/nanmax/nanstd/nanvar are functions of the multiset of non-NaN elements of the window they are given (assumed NumPy contract)"],
+    trusted_base=[],
+)
